@@ -32,7 +32,7 @@ var (
 	sched  = func(dir string) seam { return seam{dir, "sync", modPath + "/zzverifrt/vsync"} }
 	dial   = func(dir string) seam { return seam{dir, "net", modPath + "/zzverifrt/vnet"} }
 	csprng = func(dir string) seam { return seam{dir, "crypto/rand", modPath + "/zzverifrt/vrand"} }
-	jitter = func(dir string) seam { return seam{dir, "math/rand", modPath + "/zzverifrt/vrand"} }
+	jitter = func(dir string) seam { return seam{dir, "math/rand", modPath + "/zzverifrt/vmrand"} }
 )
 
 var groups = map[string][]seam{
